@@ -229,4 +229,133 @@ func genC18(r *Rng, tier string, o *Out) {
 			o.Case("cap %d ops %d%s", capv, done, sb.String())
 		}
 	}
+	nl := 3
+	if tier == "thorough" {
+		nl = 10
+	}
+	for i := 0; i < nl; i++ {
+		c18Large(r, i, o)
+	}
+}
+
+func c18Hash(d []byte) uint32 {
+	var h uint32
+	for _, b := range d {
+		h = h*131 + uint32(b) + 1
+	}
+	return h
+}
+
+// c18Large: rings of several megabytes (the production Abaco rings are 256 MB) with reader backlogs of more than
+// 4 MiB, chunk sizes that divide no power of two.  Contents do not travel through the line protocol: every
+// write takes its bytes from the recurrence b -> 31b+7 and is reported as `W start len accepted`, every read
+// as `length hash`; the Lean oracle regenerates the accepted stream and compares lengths and hashes.
+func c18Large(r *Rng, i int, o *Out) {
+	capv := r.Pick(4<<20+1+r.Range(1, 5000), 5<<20, 9000001, 8<<20+r.Range(0, 3), 6<<20+r.Range(1, 9999))
+	raw := fmt.Sprintf("dvh_rawL_%d_%d", os.Getpid(), i)
+	desc := fmt.Sprintf("dvh_descL_%d_%d", os.Getpid(), i)
+	wr, _ := ringbuffer.NewRingBuffer(raw, desc)
+	if err := wr.Create(capv); err != nil {
+		panic(err)
+	}
+	rd, _ := ringbuffer.NewRingBuffer(raw, desc)
+	if err := rd.Open(); err != nil {
+		panic(err)
+	}
+	nops := r.Range(5, 12)
+	done := 0
+	cur := ""
+	panicked := ""
+	var sb strings.Builder
+	func() {
+		defer func() {
+			if e := recover(); e != nil {
+				panicked = strings.ReplaceAll(cur, " ", "_")
+			}
+		}()
+		next := byte(r.Intn(256))
+		written, readpos := 0, 0
+		for k := 0; k < nops; k++ {
+			c := r.Pick(10, 10, 10, 70, 70, 70, 50, 85, 95, 97)
+			if k == 0 || (k%3 == 0 && wr.BytesWriteable() > capv/2) {
+				c = 10 // build a backlog first
+			}
+			switch {
+			case c == 10:
+				var ln int
+				switch r.Intn(4) {
+				case 0:
+					ln = wr.BytesWriteable()
+				case 1:
+					ln = wr.BytesWriteable() + r.Range(1, 5)
+				case 2:
+					ln = r.Range(capv/2, capv)
+				default:
+					ln = r.Range(0, capv)
+				}
+				d := make([]byte, ln)
+				start := next
+				for j := range d {
+					d[j] = next
+					next = next*31 + 7
+				}
+				cur = fmt.Sprintf("W %d", ln)
+				nw, _ := wr.Write(d)
+				written += nw
+				// the generator continues after the ACCEPTED bytes
+				next = start
+				for j := 0; j < nw; j++ {
+					next = next*31 + 7
+				}
+				fmt.Fprintf(&sb, " W %d %d %d", start, ln, nw)
+			case c == 50:
+				sz := r.Pick(rd.BytesReadable(), capv+r.Range(0, 10), 4<<20+r.Range(-3, 3), r.Range(1, capv), r.Range(-2, 0))
+				cur = fmt.Sprintf("R %d", sz)
+				d, _ := rd.Read(sz)
+				readpos += len(d)
+				fmt.Fprintf(&sb, " R %d %d %d", sz, len(d), c18Hash(d))
+			case c == 70:
+				kk := r.Pick(3000, 8192, 12345, 7, 1<<20, 4<<20-1, 4<<20+1, 1000, 8192+r.Range(-5, 5), r.Range(1, capv+2))
+				cur = fmt.Sprintf("M %d", kk)
+				d, err := rd.ReadMultipleOf(kk)
+				if err != nil {
+					fmt.Fprintf(&sb, " M %d E", kk)
+				} else {
+					readpos += len(d)
+					fmt.Fprintf(&sb, " M %d %d %d", kk, len(d), c18Hash(d))
+				}
+			case c == 85:
+				cur = "A"
+				d, _ := rd.ReadAll()
+				readpos += len(d)
+				fmt.Fprintf(&sb, " A %d %d", len(d), c18Hash(d))
+			case c == 97:
+				cur = "O"
+				rd.Close()
+				rd, _ = ringbuffer.NewRingBuffer(raw, desc)
+				if err := rd.Open(); err != nil {
+					panic(err)
+				}
+				fmt.Fprintf(&sb, " O %d", rd.BytesReadable())
+			default:
+				kk := r.Pick(1, 3000, 8192, 4096, 12345)
+				if written-written%kk < readpos {
+					kk = 1
+				}
+				cur = fmt.Sprintf("D %d", kk)
+				rd.DiscardStride(uint64(kk))
+				readpos = written - written%kk
+				fmt.Fprintf(&sb, " D %d %d", kk, rd.BytesReadable())
+			}
+			done++
+		}
+	}()
+	rd.Close()
+	wr.Close()
+	wr.Unlink()
+	if panicked != "" {
+		o.Case("lens cap %d ops %d%s PANIC %s", capv, done, sb.String(), panicked)
+	} else {
+		o.Case("lens cap %d ops %d%s", capv, done, sb.String())
+	}
 }
